@@ -9,6 +9,7 @@ import (
 	"sort"
 	"strings"
 	"sync"
+	"sync/atomic"
 	"time"
 )
 
@@ -146,7 +147,10 @@ func Discharge(o *Obligation, dir string, timeout time.Duration, thorough bool) 
 	if !o.Cover && o.Goal != nil && o.Goal.IsTrue() {
 		return Verdict{Status: "discharged", By: "by-construction"}
 	}
-	base := filepath.Join(dir, sanitizeFile(o.Name))
+	// several instances of one obligation name (one per path through the function) are discharged concurrently:
+	// each gets its own query file (they used to share one, and a solver could read a file another worker was
+	// rewriting: a parse error, reported as undischarged)
+	base := filepath.Join(dir, sanitizeFile(o.Name)+"-"+itoa(int(atomic.AddInt64(&queryFileSeq, 1))))
 	file := base + ".smt2"
 	script := o.Script(smtHeader)
 	if err := os.WriteFile(file, []byte(script), 0o644); err != nil {
@@ -373,3 +377,5 @@ func allErrors(as []SolverAnswer) bool {
 	}
 	return len(as) > 0
 }
+
+var queryFileSeq int64
